@@ -1,1 +1,2 @@
 pub mod bytes;
+pub mod xorb;
